@@ -30,6 +30,9 @@ def plan(tier, seed):
     nrand = 2500 if tier == "quick" else 40000
     for p in range(2):
         specs.append(dict(name="random-%d" % p, mode="interp", what="random", n=nrand // 2, seed=[seed, 88, p]))
+    # one cluster to refill and two eligible donors with close covariance spreads (forced history, then natural rounds)
+    specs.append(dict(name="e2e-donorrank", mode="interp", what="e2e", mix={"large:donorrank": 1.0}, n=12 if tier == "quick" else 48,
+                      seed=[seed, 808, 4321], nwcap=8))
     # the same work in an interpreter started with -O (assert statements compiled away)
     byname = {sp["name"]: sp for sp in specs}
     if 'random-0' in byname:
